@@ -114,7 +114,8 @@ __CPROVER_ensures(PREF(p) == OLD(PREF(p)) + 1)
 /* the count drops by one; the pipe is destroyed exactly when the last
  * reference goes: protocol pipe_fini, then transport p_fini, each once, on
  * their areas, before the block is released once with its recorded size */
-#define PIPE_SHAPE(p) (g_priv < SC_PRIV_MAX && __CPROVER_is_fresh(p, sizeof(nni_pipe) + g_priv) && (p)->p_size == sizeof(nni_pipe) + g_priv \
+/* BOUND (tool): the block is exactly a struct nni_pipe (no private areas), see CTX_SHAPE */
+#define PIPE_SHAPE(p) (__CPROVER_is_fresh(p, sizeof(nni_pipe)) && (p)->p_size == sizeof(nni_pipe) \
     && (p)->p_refcnt.rc_fini == pipe_destroy && ALIAS((void *) (p), (p)->p_refcnt.rc_data) && (p)->p_proto_ops.pipe_fini == vp_proto_pipe_fini && (p)->p_tran_ops.p_fini == vp_tran_pipe_fini)
 void nni_pipe_rele(nni_pipe *p)
 __CPROVER_requires(PIPE_SHAPE(p) && PREF(p) >= 1)
